@@ -308,7 +308,9 @@ class AsyncServer(base_server.BaseServer):
                         r = self._bad_request(f'{e} {sid}')
                     else:
                         if self.transport(sid) != transport and \
-                                transport != upgrade_header:
+                                transport != upgrade_header or \
+                                self._request_transport(environ) \
+                                not in self.transports:
                             self._log_error_once(
                                 f'Invalid transport for session {sid}',
                                 'bad-transport')
@@ -330,7 +332,11 @@ class AsyncServer(base_server.BaseServer):
                                     self.sockets[sid].closed:
                                 del self.sockets[sid]
         elif method == 'POST':
-            if sid is None or sid not in self.sockets:
+            if 'polling' not in self.transports:
+                # a POST is a polling request, whatever its query string says
+                self._log_error_once('Invalid transport', 'bad-transport')
+                r = self._bad_request('Invalid transport')
+            elif sid is None or sid not in self.sockets:
                 self._log_error_once(f'Invalid session {sid}', 'bad-sid')
                 r = self._bad_request(f'Invalid session {sid}')
             else:
